@@ -182,12 +182,22 @@ theorem travSession_sound {sv : Server} (s : Sess) (pm : PM) (cb : Visit → Nat
     exact below_of_nodeAt hn (doTraversal_sound pm true 2 cb n fuelDepth (treeInv_getNode h hn) w hw)
 
 /-- PR_COMMAND_REORDERDATA -/
-theorem treeInv_reorder {sv : Server} (sid : Nat) (key before : Bytes) (h : TreeInv sv) :
-    TreeInv (reorder sv sid key before) := by
-  unfold reorder
+theorem treeInv_reorderCore {sv : Server} (sid : Nat) (key before : Bytes) (h : TreeInv sv) :
+    TreeInv (reorderCore sv sid key before) := by
+  unfold reorderCore
   split
   · exact h
   · rename_i s hs
     exact treeInv_reorderFold before _ h (travSession_sound s _ _ h)
+
+theorem treeInv_reorder {sv : Server} (sid : Nat) (key before : Bytes) (h : TreeInv sv) :
+    TreeInv (reorder sv sid key before) := by
+  unfold reorder
+  simp only []
+  split
+  · exact treeInv_reorderCore sid key before h
+  · split
+    · exact treeInv_of_root (updSess_root _ _ _) (treeInv_reorderCore sid key before h)
+    · exact treeInv_reorderCore sid key before h
 
 end Muscle.Reflector
